@@ -510,11 +510,52 @@ def check_prompts(chk, tier):
 
 
 # ------------------------------------------------------------------ entry points
+def check_help_screen(chk, tier):
+    """adv_widgets.HelpScreen with a help FILE: its refresh() shows the file's text as one TextWidget followed by a separator;
+    the window it renders must be, line for line, what the proved model renders for that tree (title "Help", the text, a blank
+    line) — in particular no line is wider than the width."""
+    import tempfile, os
+    from simpleline.render.adv_widgets import HelpScreen
+    rng = chk.rng
+    fixed = ["    an indented entry of a list that is long enough to be wrapped more than once at small widths\nplain line",
+             "Usage:\n\n  -v   be verbose, print more messages than anybody could possibly want to read in a single line\n  -q   quiet",
+             "", "one line"]
+    texts = fixed + [rc.rand_text(rng, 12) for _ in range(dict(quick=40, thorough=400)[tier])]
+    cases = []
+    for t in texts:
+        if "\r" in t or "\x0b" in t or "\x0c" in t:
+            continue          # universal-newline translation of the file object is not the subject here
+        for w in (rng.choice([20, 33, 40, 80]), rng.randrange(4, 60)):
+            cases.append((t, w))
+    models = rc.model_render([(["window", "Help", [["text", t], ["sep", 1]]], w) for t, w in cases])
+    for (t, w), m in zip(cases, models):
+        chk.count(); chk.hist("help-screen")
+        fd, path = tempfile.mkstemp(prefix="verif_help_", suffix=".txt")
+        try:
+            with os.fdopen(fd, "w", encoding="utf-8") as f:
+                f.write(t)
+            hs = HelpScreen(path)
+            hs.refresh()
+            i = rc.impl_render(hs.window, w)
+        finally:
+            os.unlink(path)
+        if i != m:
+            lines = [uncps(l) for l in i[1]] if i[0] == 0 else i
+            wide = i[0] == 0 and any(len(l) > w for l in lines)
+            _viol(chk, "help-screen", "C17_width / C17_charset_render: HelpScreen showing the file text %r at width %d renders %r, the proved model %r"
+                  % (t[:80], w, lines[:8], ([uncps(l) for l in m[1]][:8] if m[0] == 0 else m)),
+                  dict(kind="help", text=t, w=w), found=wide)
+            return
+        if i[0] == 0 and len(i[1]) > 3:
+            chk.nontriv(dict(help=t[:40], w=w))
+
+
 def run(chk, tier):
     lib.use_repo()
     import logging
     logging.getLogger("simpleline").disabled = True
     check_directed(chk)
+    check_help_screen(chk, tier)
     check_draws(chk, tier)
     check_prompts(chk, tier)
 
@@ -537,6 +578,18 @@ def replay(path):
         print("direct: control-char=%s too-long=%r separator=%s" % (msg, long[:1], direct_separator(d["raw"], r["w"], r["no_sep"], None)))
         same = m[0] == 0 and cps(d["raw"]) == m[1] and d["outcome"] == m[2]
         return 0 if same and not msg and not (long and fitting(r["win"])) else 1
+    if k == "help":
+        import tempfile, os
+        from simpleline.render.adv_widgets import HelpScreen
+        fd, path = tempfile.mkstemp(prefix="verif_help_", suffix=".txt")
+        with os.fdopen(fd, "w", encoding="utf-8") as f:
+            f.write(r["text"])
+        hs = HelpScreen(path); hs.refresh()
+        i = rc.impl_render(hs.window, r["w"]); os.unlink(path)
+        m = rc.model_render([(["window", "Help", [["text", r["text"]], ["sep", 1]]], r["w"])])[0]
+        print("impl :", [uncps(l) for l in i[1]] if i[0] == 0 else i)
+        print("model:", [uncps(l) for l in m[1]] if m[0] == 0 else m)
+        return 0 if i == m else 1
     if k == "render":
         i = rc.impl_render(rc.build(r["tree"]), r["w"])
         print("impl :", [uncps(l) for l in i[1]] if i[0] == 0 else i)
